@@ -361,6 +361,12 @@ package dastard
 //@ pred WOFFOK(w *off.Writer) := w != nil ==> allocated(w) && (w.headerWritten ==> w.writer != nil && allocated(w.writer) && WInv(w.writer)) && (!w.headerWritten ==> w.file == nil)
 //@        && w.ModelInfo.projectors != nil && w.ModelInfo.basis != nil
 
+// PubOK: the installed writers are well-formed and use pairwise distinct queues.
+//@ pred PubOK(dp *DataPublisher) := W22OK(dp.LJH22) && W3OK(dp.LJH3) && WOFFOK(dp.OFF)
+//@        && (dp.LJH22 != nil && dp.LJH3 != nil && dp.LJH22.HeaderWritten && dp.LJH3.HeaderWritten ==> dp.LJH22.writer != dp.LJH3.writer)
+//@        && (dp.LJH22 != nil && dp.OFF != nil && dp.LJH22.HeaderWritten && dp.OFF.headerWritten ==> dp.LJH22.writer != dp.OFF.writer)
+//@        && (dp.LJH3 != nil && dp.OFF != nil && dp.LJH3.HeaderWritten && dp.OFF.headerWritten ==> dp.LJH3.writer != dp.OFF.writer)
+
 //@ func (*DataPublisher).PublishData
 //@   props C05 C06
 //@   requires !IOFaults() && !QueueFull() && RecsReadable(records) && W22OK(dp.LJH22) && W3OK(dp.LJH3) && WOFFOK(dp.OFF)
@@ -368,6 +374,7 @@ package dastard
 //@        && (dp.LJH22 != nil && dp.OFF != nil && dp.LJH22.HeaderWritten && dp.OFF.headerWritten ==> dp.LJH22.writer != dp.OFF.writer)
 //@        && (dp.LJH3 != nil && dp.OFF != nil && dp.LJH3.HeaderWritten && dp.OFF.headerWritten ==> dp.LJH3.writer != dp.OFF.writer)
 //@   ensures inv: W22OK(dp.LJH22) && W3OK(dp.LJH3) && WOFFOK(dp.OFF) && unchanged(dp.LJH22, dp.LJH3, dp.OFF, dp.WritingPaused)
+//@   ensures distinct: PubOK(dp)
 //@   ensures gate: len(records) == 0 || dp.WritingPaused || (dp.LJH22 == nil && dp.LJH3 == nil && dp.OFF == nil) ==> result == nil && unchanged(dp.numberWritten)
 //@        && (dp.LJH22 != nil ==> unchanged(dp.LJH22.HeaderWritten, dp.LJH22.writer, dp.LJH22.RecordsWritten) && (dp.LJH22.writer != nil ==> unchanged(dp.LJH22.writer.n, dp.LJH22.writer.items)))
 //@        && (dp.LJH3 != nil ==> unchanged(dp.LJH3.HeaderWritten, dp.LJH3.writer, dp.LJH3.RecordsWritten) && (dp.LJH3.writer != nil ==> unchanged(dp.LJH3.writer.n, dp.LJH3.writer.items)))
